@@ -278,6 +278,20 @@ def oracle(c, r):
         rank_true = sum(1 for s in sv if s > c["tol"])
         if r["rank"] != rank_true:
             yield ("svd-rank", what + ": rank(%r) = %d with sv %r" % (c["tol"], r["rank"], sv))
+        # the rank reflects the dimension of the point set: exactly collinear / planar / coincident sets were generated as such
+        # (their transverse spread is rounding, below 1e-11), generic ones have full rank; demanded when the spread that is
+        # present is clearly above the tolerance
+        cls = c.get("cls")
+        spread = math.sqrt(sum(sum(x * x for x in v) for v in vecs))
+        want = None
+        if cls == "coincident" and scale * 1e-12 < c["tol"]:
+            want = 0
+        elif cls == "collinear" and spread > 100 * c["tol"] and scale * 1e-12 < c["tol"]:
+            want = 1
+        elif cls == "planar" and dim == 2 and spread > 100 * c["tol"] and scale * 1e-12 < c["tol"]:
+            want = 1
+        if want is not None and r["rank"] != want:
+            yield ("svd-rank-dimension", what + ": a %s point set (spread %r) has rank(%r) = %d, singular values %r" % (cls, spread, c["tol"], r["rank"], sv))
         if max(abs(a - b) for a, b in zip(r["round"], c["q"])) > 1e-9 * max(scale, max(abs(x) for x in c["q"])):
             yield ("svd-roundtrip", what + ": from_basis(to_basis(%r)) = %r" % (c["q"], r["round"]))
         if dim == 3:
